@@ -506,11 +506,18 @@ pub fn run_engine(s: &mut Src, ctx: &mut Ctx) -> Verdict {
             }
             Op::Log(p) => {
                 let i = hs.len();
-                let prem: Vec<FactHandle> = p.iter().map(|&q| hs[q]).collect();
+                // the order in which premises are LISTED carries no meaning: every second step lists them backwards
+                let mut prem: Vec<FactHandle> = p.iter().map(|&q| hs[q]).collect();
+                if step % 2 == 1 {
+                    prem.reverse();
+                }
                 new_fact = Some(eng.insert_logical("Derived".to_string(), data(i), rule_of(i, step), prem));
             }
             Op::Just(t, p) => {
-                let prem: Vec<FactHandle> = p.iter().map(|&q| hs[q]).collect();
+                let mut prem: Vec<FactHandle> = p.iter().map(|&q| hs[q]).collect();
+                if step % 2 == 1 {
+                    prem.reverse();
+                }
                 eng.tms_mut().add_logical_justification(hs[*t], rule_of(*t, step), prem);
             }
             Op::Ret(x) => {
